@@ -4,7 +4,7 @@ from common import *
 
 # archetype indices in the harness world: One=0 (1 column), Two=1, Thr=2 (Key, Zed, Pad), Fou=3 ...
 ONE, TWO, THR, FOU = 0, 1, 2, 3
-# archetypes with permuted column orders in the narrow world: Zfr = (Zed, Key, Pad), Pfr = (Pad, Zno, Key)
+# archetypes with permuted column orders in the narrow world: Zfr = (Zed, Key, Pad), Pfr = (Pad, Zno, Big, Key)
 ZFR, PFR = 4, 5
 
 
